@@ -9,9 +9,15 @@ VARIANTS = {
     # build tag "plugin": the library's alternative amd64 assembly for Go plugin builds (internal/sm2ec/p256_plugin_amd64.s,
     # internal/sm9/bn256/gfp_plugin_amd64.s + the generic gfp2/g1 helpers); no GODEBUG setting selects it
     "plugin": ["-tags", "verif,plugin"],
+    # 32-bit x86 build (GOARCH=386, see VARIANT_ENV): the generic code with 32-bit words and ints (bigmod limbs, length
+    # arithmetic, math/bits fallbacks); runs natively on the amd64 kernel
+    "ia32": ["-tags", "verif"],
     "race": ["-tags", "verif", "-race"],
     "race-purego": ["-tags", "verif,purego", "-race"],
 }
+
+# build variants -> extra environment of `go build`
+VARIANT_ENV = {"ia32": {"GOARCH": "386", "CGO_ENABLED": "0"}}
 
 # dispatch configurations -> environment of the child (GODEBUG entries are merged)
 CONFIGS = {
@@ -26,6 +32,7 @@ CONFIGS = {
     "aesni1": {"FORCE_SM4BLOCK_AESNI": "1"},
     "sha1ok": {"GODEBUG": "x509sha1=1"},
     "purego": {},  # used with the purego variants
+    "ia32": {},    # used with the ia32 variant
 }
 
 
@@ -38,9 +45,11 @@ def J(wl, configs=("avx2",), variant="asm", shards=(4, 16), floor=1, env=None, d
 
 def both(wl, configs, shards=(4, 16), **kw):
     """asm variant over `configs` plus the purego variant."""
-    out = [J(wl, [c for c in configs if c != "purego"], "asm", shards, **kw)]
+    out = [J(wl, [c for c in configs if c not in ("purego", "ia32")], "asm", shards, **kw)]
     if "purego" in configs:
         out.append(J(wl, ["purego"], "purego", shards, **kw))
+    if "ia32" in configs:
+        out.append(J(wl, ["ia32"], "ia32", shards, **kw))
     return out
 
 
